@@ -84,6 +84,15 @@ def leaf_kind(facts, n, mode):
     return ("T", st + ("." + rest if rest else ""))
 
 
+def _expand_vec(lk):
+    """a leaf of type Vec<X> handled by the generic Vec impl is, on the wire, a length followed by the elements"""
+    if lk[0] == "T":
+        m = re.match(r"^(?:std::vec::)?Vec<(.*)>$", lk[1])
+        if m:
+            return [("T", "usize"), ("rep", tuple(_expand_vec(("T", norm_ty(m.group(1))))))]
+    return [lk]
+
+
 def node_args(n):
     return ([n["recv"]] if n.get("k") == "MCall" else []) + n.get("args", [])
 
@@ -112,7 +121,7 @@ def grammar(facts, node, mode):
         inner = []
         for a in ([node.get("recv")] if k == "MCall" else []) + node.get("args", []):
             inner += grammar(facts, a, mode)
-        return inner + [lk]
+        return inner + _expand_vec(lk)
     if k in ("Call", "MCall") and _helper(facts, node) is not None and _DEPTH[0] < 3:
         inner = []
         for a in ([node.get("recv")] if k == "MCall" else []) + node.get("args", []):
@@ -136,7 +145,11 @@ def grammar(facts, node, mode):
         body = grammar(facts, node.get("body"), mode)
         pre = grammar(facts, node.get("iter"), mode) if k == "For" else grammar(facts, node.get("c"), mode)
         if k == "For" and body:
-            m = re.match(r"^\[.*; (\d+)\]$", norm_ty(facts.ty(node["iter"])))
+            it_ = strip(node["iter"])
+            while it_.get("k") == "MCall" and it_.get("name") in ("iter", "iter_mut", "into_iter") and not it_["args"]:
+                it_ = strip(it_["recv"])
+            m = re.match(r"^\[.*; (\d+)\]$", norm_ty(facts.ty(node["iter"]))) or \
+                re.match(r"^\[.*; (\d+)\]$", norm_ty(facts.ty(it_))) or re.match(r"^\[.*; (\d+)\]$", norm_ty(facts.ty_adj(it_)))
             if m and int(m.group(1)) <= 16:
                 return pre + body * int(m.group(1))      # iteration over a fixed-size array: unrolled
         return pre + ([("rep", tuple(body))] if body else [])
@@ -260,7 +273,7 @@ def size_grammar(facts, node, depth=0):
         k = e.get("k")
         lk = leaf_kind(facts, e, "s")
         if lk is not None:
-            return [lk]
+            return _expand_vec(lk)
         if k == "Lit" and lit(e) is not None:
             return [("bytes", lit(e))]
         if k == "Bin" and e["op"] == "+":
@@ -494,7 +507,7 @@ def run(facts, rep):
                     rep.violation("R-WIRE(size)", k, "conditional parts of the size function disagree with the writer "
                                   "(writer: %s ; size: %s)" % (show(gw), show(gs)), facts.loc(g["s"]))
             # seed expansion on read
-            rb = facts.hir[g["r"]]
+            rb = facts.inlined(g["r"])
             reads_seed = any((callee(x) or {}).get("name") == "contains_seed" for x in walk(rb))
             writes_seed = any((callee(x) or {}).get("name") == "contains_seed" for x in walk(facts.hir[g["w"]]))
             if writes_seed and sc in ("-", "BFV"):
@@ -554,7 +567,7 @@ def run_use(facts, rep):
                 return frozenset()          # a refusing path owes nothing
             return st
 
-        fl = Flow(facts, lambda a, b: a | b, transfer, closure_mode="maybe")
+        fl = Flow(facts, lambda a, b: a | b, transfer, closure_mode="run")      # combinator closures run on the Ok path
         fl.run(body, frozenset())
         left = set()
         for st, node in fl.rets:
